@@ -314,20 +314,22 @@ def writeGroups (set : List (Option Str)) : List Nat → Nat → Writer → Res 
       | .panic => .panic
     else writeGroups set rest (i + 1) w
 
+/-- aset.rs:475-486: main flag word, then the groups. -/
+def writeSetBody (set : List (Option Str)) (w : Writer) : Res Writer :=
+  match w.writeU32 (mainFlags set) with                                            -- :475
+  | .ok w2 => writeGroups set ((compiledFlags set).take 8) 0 w2                    -- :476-486
+  | .err e => .err e
+  | .panic => .panic
+
 /-- aset.rs:444-487: one iteration of `for set in &self.sets`. -/
 def writeSet (w : Writer) (set : List (Option Str)) : Res Writer :=
   let w := w.allocateAtEnd ((flagsToWrite set + stringsToWrite set + 1) * 4)      -- :471
   match set[0]? with                                  -- :472 `&set[0]` panics on an empty set
   | none => .panic
-  | some label0 =>
-    match (match label0 with
-           | some label => w.writeLabel label                                      -- :473
-           | none => .ok w) with
-    | .ok w1 =>
-      match w1.writeU32 (mainFlags set) with                                       -- :475
-      | .ok w2 => writeGroups set ((compiledFlags set).take 8) 0 w2                -- :476-486
-      | .err e => .err e
-      | .panic => .panic
+  | some none => writeSetBody set w
+  | some (some label) =>
+    match w.writeLabel label with                                                  -- :473
+    | .ok w1 => writeSetBody set w1
     | .err e => .err e
     | .panic => .panic
 
